@@ -10,6 +10,7 @@ import (
 	"path/filepath"
 	"runtime/debug"
 	"sort"
+	"strconv"
 	"strings"
 	"sync"
 	"time"
@@ -202,6 +203,20 @@ func runCheck(spec *Spec, tier string, seed int64) int {
 		}
 	}
 	jobs := spec.Jobs(tier)
+	if js := os.Getenv("GOSYM_JOB"); js != "" {
+		// e.g. GOSYM_JOB="rules.verifRegexRules(3178,1,2)"
+		var j Job
+		open := strings.Index(js, "(")
+		dot := strings.Index(js, ".")
+		j.Pkg, j.Func = js[:dot], js[dot+1:open]
+		for _, a := range strings.Split(strings.TrimSuffix(js[open+1:], ")"), ",") {
+			if a = strings.TrimSpace(a); a != "" {
+				v, _ := strconv.ParseInt(a, 10, 64)
+				j.Args = append(j.Args, v)
+			}
+		}
+		jobs = []Job{j}
+	}
 	if only := os.Getenv("GOSYM_ONLY"); only != "" {
 		var sel []Job
 		for _, j := range jobs {
@@ -340,6 +355,11 @@ func (rc *RunCtx) runJob(j Job) (res *JobResult) {
 	}
 	e.Encoded = map[string]bool{}
 	e.Run(st, fn, args)
+	if e.ForkSites != nil {
+		for k, v := range e.ForkSites {
+			fmt.Printf("END %6d %s\n", v, k)
+		}
+	}
 	return res
 }
 
@@ -487,6 +507,10 @@ func (rc *RunCtx) processEvents() {
 					continue
 				}
 				seenLabel[k]++
+				if len(cands) >= 40 {
+					rc.Notes = append(rc.Notes, fmt.Sprintf("further counterexample candidate not replayed (replay budget): %s %q in job %s", ev.Kind, ev.Label, r.Job.Name()))
+					continue
+				}
 				cands = append(cands, cand{r, ev})
 			case "unknown", "unwind", "budget", "unsupported":
 				rc.Infra = append(rc.Infra, fmt.Sprintf("job %s: %s: %s %s", r.Job.Name(), ev.Kind, ev.Label, ev.Pos))
